@@ -296,5 +296,131 @@ func specRequestKeyOK(requestKey, blindKeyEnc, clientKeyEnc string) bool {
 //@ ensures[C06] err == nil ==> specRequestKeyOK(rk, string(blindKeyEnc), string(clientKeyEnc))
 //@ ensures[C06 C09] err != nil ==> CacheKnown(a.cache, cid) == known && CacheState(a.cache, cid) == state
 //@ ensures[C09] err == nil ==> CacheKnown(a.cache, cid) && (known ==> CacheState(a.cache, cid) == state)
+//@ ensures[C09] err == nil && !known ==> specClientStateOK(CacheState(a.cache, cid)) && fresh(CacheState(a.cache, cid)) && fresh(CacheState(a.cache, cid).clientIndices)
 //@ assigns ghost(cacheKnownAt(cacheKey(a.cache, HexEnc(string(clientKeyEnc))))), ghost(cacheStateAt(cacheKey(a.cache, HexEnc(string(clientKeyEnc)))))
 //@ end
+
+// ---------------------------------------------------------------------------
+// Anonymous issuer origin ID (C08) and the attester's bookkeeping (C09)
+
+// index = HKDF-SHA-384(ikm = unblinded key, salt = client key, info = "IssuerOriginAlias", 48 bytes)
+//
+//@ func computeIndex(clientKey []byte, indexKey []byte) (index []byte, err error)
+//@ props C03 C08 C16
+//@ ensures err == nil && string(index) == HKDFSHA384(string(indexKey), string(clientKey), "IssuerOriginAlias", 48) && fresh(index) && len(index) == 48
+//@ assigns none
+//@ alloc 64
+//@ end
+
+// specIndexKey: the issuer-blinded request key with the client's blind removed.
+//
+//@ spec
+func specIndexKey(blindEnc, blindedRequestKeyEnc string) string {
+	c := CurveP384()
+	kInv := ModInv(ecdsa.SpecBlindScalar(c, BE(blindEnc), specClientCtx()), ECOrder(c))
+	x, y := ECDecX(c, blindedRequestKeyEnc), ECDecY(c, blindedRequestKeyEnc)
+	return ECEnc(c, ECMulX(c, kInv, x, y), ECMulY(c, kInv, x, y))
+}
+
+//@ spec
+func specIndex(clientKey, blindEnc, blindedRequestKeyEnc string) string {
+	return HKDFSHA384(specIndexKey(blindEnc, blindedRequestKeyEnc), clientKey, "IssuerOriginAlias", 48)
+}
+
+// specClientStateOK: the representation invariant of a client state (as created by VerifyRequest): two
+// distinct, allocated maps.
+//
+//@ spec
+func specClientStateOK(st *ClientState) bool {
+	return st != nil && st.clientIndices != nil && st.originIndices != nil && !SameMap(st.clientIndices, st.originIndices)
+}
+
+// specBlindOK: the blinding factor derived from the blind is invertible (it is zero with probability 2^-384).
+//
+//@ spec
+func specBlindOK(blindEnc string) bool {
+	c := CurveP384()
+	return Invertible(ecdsa.SpecBlindScalar(c, BE(blindEnc), specClientCtx()), ECOrder(c))
+}
+
+//@ func (a *RateLimitedAttester) FinalizeIndex(clientKey []byte, blindEnc []byte, blindedRequestKeyEnc []byte, anonOriginId []byte) (index []byte, err error)
+//@ props C03 C08 C09 C16
+//@ requires a.cache != nil && specBlindOK(string(blindEnc))
+//@ let cid = HexEnc(string(clientKey))
+//@ let aid = HexEnc(string(anonOriginId))
+//@ let idx = specIndex(string(clientKey), string(blindEnc), string(blindedRequestKeyEnc))
+//@ let known = CacheKnown(a.cache, HexEnc(string(clientKey)))
+//@ let st = CacheState(a.cache, HexEnc(string(clientKey)))
+//@ let valid = ECDecOK(CurveP384(), string(blindedRequestKeyEnc))
+//@ requires CacheKnown(a.cache, HexEnc(string(clientKey))) ==> specClientStateOK(CacheState(a.cache, HexEnc(string(clientKey))))
+//@ let bound = MapHas(CacheState(a.cache, HexEnc(string(clientKey))).clientIndices, HexEnc(specIndex(string(clientKey), string(blindEnc), string(blindedRequestKeyEnc))))
+//@ let prev = CacheState(a.cache, HexEnc(string(clientKey))).clientIndices[HexEnc(specIndex(string(clientKey), string(blindEnc), string(blindedRequestKeyEnc)))]
+//@ ensures[C08 C09] err == nil ==> valid && known && string(index) == idx && fresh(index)
+//@ ensures[C09] err == nil ==> (!bound || prev == aid) && MapHas(st.clientIndices, HexEnc(idx)) && st.clientIndices[HexEnc(idx)] == aid && MapSameExcept(st.clientIndices, HexEnc(idx))
+//@ ensures[C09] err != nil && known ==> MapSame(st.clientIndices)
+//@ ensures[C09] valid && known && (!bound || prev == aid) ==> err == nil
+//@ ensures[C09] !known ==> err != nil
+//@ ensures err != nil ==> index == nil
+//@ assigns CacheState(a.cache, HexEnc(string(clientKey))).clientIndices[*], CacheState(a.cache, HexEnc(string(clientKey))).originIndices[*]
+//@ end
+
+// C09: one step of the induction over request histories. (i0, a0) is an arbitrary binding of this client
+// accepted earlier. Bindings are never changed or dropped, a second anonymous origin ID for a bound issuer
+// origin ID is refused, a repeat of an accepted pair and a pair with an unbound issuer origin ID are accepted,
+// and a client that was never verified is refused.
+//
+//@ lemma props C09
+func lemmaAttesterStep(a *RateLimitedAttester, ck, blind, brk, anon []byte, i0, a0 string) {
+	Vassume(a != nil && a.cache != nil && specBlindOK(string(blind)))
+	cid := HexEnc(string(ck))
+	known := CacheKnown(a.cache, cid)
+	st := CacheState(a.cache, cid)
+	Vassume(!known || specClientStateOK(st))
+	had := known && MapHas(st.clientIndices, i0) && st.clientIndices[i0] == a0
+	ix := HexEnc(specIndex(string(ck), string(blind), string(brk)))
+	aid := HexEnc(string(anon))
+	valid := ECDecOK(CurveP384(), string(brk))
+	free := known && (!MapHas(st.clientIndices, ix) || st.clientIndices[ix] == aid)
+	index, err := a.FinalizeIndex(ck, blind, brk, anon)
+	if had {
+		Vassert(MapHas(st.clientIndices, i0) && st.clientIndices[i0] == a0) // accepted bindings stay in force
+	}
+	if err == nil {
+		Vassert(known && HexEnc(string(index)) == ix)
+		if had && ix == i0 {
+			Vassert(aid == a0) // never a second anonymous origin ID for the same issuer origin ID
+		}
+		Vassert(st.clientIndices[ix] == aid)
+	}
+	if valid && free {
+		Vassert(err == nil) // a repeat of an accepted pair, or an unbound issuer origin ID, is accepted
+	}
+	if !known {
+		Vassert(err != nil) // a client without a verified request is refused
+	}
+}
+
+// C08: the anonymous issuer origin ID depends only on the client key and the origin index key: the
+// request blind cancels. clientKey = sk*G is the client's public key, hi the issuer's blinding factor for
+// the origin, k the per-request client blind factor (non-zero mod N).
+//
+//@ lemma props C08
+func lemmaIndexStable(x, y, hi, k1, k2 Mathint) {
+	c := CurveP384()
+	n := ECOrder(c)
+	Vassume(ECOnCurve(c, x, y) && hi >= 0 && k1 > 0 && k1 < n && k2 > 0 && k2 < n)
+	// request key = k*P, issuer-blinded request key = hi*(k*P), unblinded = k^-1*(hi*(k*P)) for both blinds
+	u1x, u1y := specUnblinded(c, x, y, hi, k1)
+	u2x, u2y := specUnblinded(c, x, y, hi, k2)
+	Vassert(u1x == ECMulX(c, hi%n, x, y) && u1y == ECMulY(c, hi%n, x, y))
+	Vassert(u1x == u2x && u1y == u2y)
+}
+
+//@ spec
+func specUnblinded(c elliptic.Curve, x, y, hi, k Mathint) (Mathint, Mathint) {
+	n := ECOrder(c)
+	rx, ry := ECMulX(c, k, x, y), ECMulY(c, k, x, y)
+	bx, by := ECMulX(c, hi, rx, ry), ECMulY(c, hi, rx, ry)
+	kInv := ModInv(k, n)
+	return ECMulX(c, kInv, bx, by), ECMulY(c, kInv, bx, by)
+}
